@@ -1,8 +1,8 @@
 /-
   Hs.Model.Tz — timestamps, offsets and zone names (C06):
     src/haystack/timezone/mod.rs   `fixed_timezone`
-    src/haystack/timezone/iana.rs  `make_date_time`, `make_date_time_with_tz`, `find_timezone`,
-                                   `timezone_short_name`, `is_utc`
+    src/haystack/timezone/iana.rs  `make_date_time`, `make_date_time_with_tz`, `make_date_time_from_text`,
+                                   `find_timezone`, `timezone_short_name`, `is_utc`
     src/haystack/val/datetime.rs   `parse_from_rfc3339`, `parse_from_rfc3339_with_timezone`
     encoding/zinc/decode/scalar/date_time.rs  `parse_datetime`, `parse_time_zone`, `parse_time_zone_name`
     encoding/zinc/encode.rs        `impl ToZinc for DateTime`
@@ -16,7 +16,9 @@
   * the zone id list of the compiled database (`Hs.Gen.Zones`, dumped by the harness), `str::parse::<Tz>`
     = membership in that list;
   * the zone offset function is a PARAMETER `TzDb` of everything that needs it;
-  * `FixedOffset`'s Display text (`offsetText`), `FixedOffset::east_opt`'s range (|secs| < 86400).
+  * `FixedOffset`'s Display text (`offsetText`, seconds printed when not zero), the offset text of
+    `to_rfc3339_opts(_, use_z = true)` (`rfcOffsetText`: `Z` for the zero offset, else `±hh:mm` with the
+    seconds ROUNDED to the nearest minute), `FixedOffset::east_opt`'s range (|secs| < 86400).
   Core-only imports: linked into `hsdriver`.
 -/
 import Hs.Model.Val
@@ -160,6 +162,32 @@ def makeDateTimeWithTz (secs : Int) (ns : Nat) (name : List Char) : Res DT :=
   | some z => .ok ⟨secs, ns, z⟩
   | none => .err
 
+/-- the offset as a text of minute precision carries it: rounded to the nearest minute, half away from
+zero — `zone_secs.signum() * ((zone_secs.abs() + 30) / 60) * 60` (i32; no overflow below 24 h) -/
+def roundMin (off : Int) : Int := off.sign * (((off.natAbs : Int) + 30) / 60) * 60
+
+/-- `make_date_time_from_text(datetime, tz)` for `datetime` = the instant `secs` (+ `ns`) written with the
+offset `written` (= `parse_from_rfc3339_with_timezone`, and the readers' path for a text with an offset):
+the instant converted to the zone as `make_date_time_with_tz` does; when the zone's offset there has
+seconds and, rounded to the minute, is the written offset, the wall-clock time of the text is exact: the
+result is the converted instant minus those seconds, provided the zone's offset is the same there.
+(`converted - Duration::seconds(..)` cannot overflow for a timestamp read from text: years 0000–9999.) -/
+def makeDateTimeFromText (db : TzDb) (secs : Int) (ns : Nat) (written : Int) (name : List Char) : Res DT :=
+  match makeDateTimeWithTz secs ns name with
+  | .ok converted =>
+    let zoneSecs := converted.offset db
+    let rounded := roundMin zoneSecs
+    let seconds := zoneSecs - rounded
+    if seconds ≠ 0 ∧ rounded = written then
+      let exact : DT := ⟨converted.secs - seconds, converted.ns, converted.tzid⟩
+      if exact.offset db = zoneSecs then .ok exact
+      else .ok converted
+    else .ok converted
+  | .err => .err
+  | .panic => .panic
+  | .diverge => .diverge
+  | .depth => .depth
+
 /-! ### Zinc, at the level of fields -/
 
 /-- the fields of a Zinc / RFC 3339 timestamp: local seconds, nanoseconds, the offset text
@@ -171,8 +199,15 @@ structure ZFields where
   name   : Option (List Char)
 deriving Repr, DecidableEq, Inhabited
 
-/-- the offset text `to_rfc3339_opts(_, use_z = true)` prints -/
-def rfcOffsetText (off : Int) : List Char := if off = 0 then ['Z'] else offsetText off
+/-- chrono's `OffsetFormat` with `OffsetPrecision::Minutes`: the sign of the offset, then
+`(|off| + 30) / 60` minutes (the seconds are rounded to the nearest minute) as `hh:mm` -/
+def minuteOffsetText (off : Int) : List Char :=
+  let minutes := (off.natAbs + 30) / 60
+  (if off < 0 then '-' else '+') :: (d2 (minutes / 60) ++ ':' :: d2 (minutes % 60))
+
+/-- the offset text `to_rfc3339_opts(_, use_z = true)` prints: `Z` only for the offset 0 itself
+(an offset of 20 s is written `+00:00`, of −20 s `-00:00`) -/
+def rfcOffsetText (off : Int) : List Char := if off = 0 then ['Z'] else minuteOffsetText off
 
 /-- `impl ToZinc for DateTime` -/
 def zincEnc (db : TzDb) (d : DT) : ZFields :=
@@ -193,8 +228,10 @@ def parseOffTxt : List Char → Option OffTok
     else none
   | _ => none
 
-/-- `parse_datetime` after the date and time have been read -/
-def zincDec (f : ZFields) : Res DT :=
+/-- `parse_datetime` after the date and time have been read: `Z` (with or without a name) takes the
+fields as UTC; a text with an offset `±hh:mm` (`FixedOffset::east_opt` / `west_opt` of the duration)
+goes through `make_date_time_from_text` with that offset as the written one -/
+def zincDec (db : TzDb) (f : ZFields) : Res DT :=
   match parseOffTxt f.offTxt with
   | none => .err
   | some .z =>
@@ -212,13 +249,14 @@ def zincDec (f : ZFields) : Res DT :=
       if lexable n then
         if n = utcName then .ok ⟨f.loc, f.ns, utcName⟩
         else if dur < 86400 then
-          makeDateTimeWithTz (if plus then f.loc - dur else f.loc + dur) f.ns n
+          makeDateTimeFromText db (if plus then f.loc - dur else f.loc + dur) f.ns (if plus then (dur : Int) else -(dur : Int)) n
         else makeDateTimeWithTz f.loc f.ns n
       else .err
 
 /-! ### Hayson -/
 
-/-- `Serialize for DateTime`: `val` (the RFC 3339 text, as fields) and `tz` unless the zone is UTC -/
+/-- `Serialize for DateTime`: `val` (the RFC 3339 text, as fields: exact local time, and the offset the
+text carries, which is the zone's offset rounded to the minute) and `tz` unless the zone is UTC -/
 structure JFields where
   loc : Int
   ns  : Nat
@@ -227,15 +265,17 @@ structure JFields where
 deriving Repr, DecidableEq, Inhabited
 
 def jsonEnc (db : TzDb) (d : DT) : JFields :=
-  ⟨d.localSecs db, d.ns, d.offset db, if d.isUtc then none else some d.short⟩
+  ⟨d.localSecs db, d.ns, roundMin (d.offset db), if d.isUtc then none else some d.short⟩
 
-/-- json `parse_datetime`: `parse_from_rfc3339(val)`, then re-zoned when there is a `tz` -/
-def jsonDec (f : JFields) : Res DT :=
+/-- json `parse_datetime`: `DateTime::parse_from_rfc3339(val)` must succeed; when there is a `tz`,
+`val` is parsed again by chrono (instant = local − offset, the offset as written) and goes through
+`make_date_time_from_text` -/
+def jsonDec (db : TzDb) (f : JFields) : Res DT :=
   match makeDateTime f.loc f.ns f.off with
   | .ok d =>
     match f.tz with
     | none => .ok d
-    | some n => makeDateTimeWithTz d.secs d.ns n
+    | some n => makeDateTimeFromText db (f.loc - f.off) f.ns f.off n
   | .err => .err
   | .panic => .panic
   | .diverge => .diverge
